@@ -142,9 +142,9 @@ func TestVerifC04(t *testing.T) {
 		return r.Range(-3, 40)
 	}
 	var inputs []verifc04.Input
-	// candidate finding: a reply that carries a chunk nobody asked for twice (overlapping parts)
+	// repaired by 26d4364: a reply that carries a chunk nobody asked for twice (overlapping parts)
 	inputs = append(inputs,
-		verifc04.Input{Class: "suspect:reply-repeats-unrequested-chunk", Kind: "range", Op: "blob 100 1 37 14 7:7:1 5:7:3"},
+		verifc04.Input{Class: "fixed:26d4364:reply-repeats-unrequested-chunk", Kind: "range", Op: "blob 100 1 37 14 7:7:1 5:7:3"},
 		verifc04.Input{Class: "scenario:reply-exact", Kind: "range", Op: "blob 100 10 35 10 30:49:20"})
 	hdrs := []string{"", "bytes", "bytes 0-0/1", "bytes 5-2/10", "bytes 10-20/5", "bytes 0-18446744073709551615/18446744073709551616",
 		"bytes 99999999999999999999-1/2", "bytes 0-1/*", "bytes 0-1/99999999999999999999999", "bytes -1-2/3", "bytes 0--1/3", "BYTES 0-1/2",
@@ -176,6 +176,14 @@ func TestVerifC04(t *testing.T) {
 				cnt = e - b + 1 - int64(r.Intn(3))*int64(r.Intn(2))
 			} else {
 				b, e, cnt = adv(0, size, chunk), adv(0, size, chunk), adv(0, chunk)
+				// a region comes out of parseRange: the regexp admits digits only, so both ends are
+				// within [0, 2^63-1] (anything else is a parse error, exercised by the hdr inputs)
+				if b < 0 {
+					b = -(b + 1)
+				}
+				if e < 0 {
+					e = -(e + 1)
+				}
 			}
 			op += fmt.Sprintf(" %d:%d:%d", b, e, cnt)
 		}
